@@ -646,6 +646,28 @@ def _assignments(hooks, p, atom, kids):
     return out
 
 
+def _atom_print_is_name(prog, phi):
+    """None when an atomic proposition of phi's class prints as exactly its
+    name on every path; else a description"""
+    from ..printers import _print
+    ci = phi.ci
+    f = prog.method(ci, '__str__')
+    if f is None:
+        return 'the class has no __str__'
+    try:
+        v = _print(prog, ci, phi.args, f)
+    except Inconclusive as e:
+        return ('its printer has several outcomes (%s)' %
+                str(e).split(':')[-1].strip()[:60])
+    name = phi.args[0]
+    if v == name or v == App('str', name) or (
+            isinstance(v, App) and v.op == 'fmt' and
+            v.args[1] == Const('{}') and
+            list(v.args[2].items) in ([name], [App('str', name)])):
+        return None
+    return 'it prints as %s' % repr(v)[:60]
+
+
 def _check_atom(hooks, p, atom, kname, phi, neg, kids, al, K, state):
     has = _member(hooks, p, atom, phi) is True
     hasn = _member(hooks, p, atom, neg) is True
@@ -663,11 +685,34 @@ def _check_atom(hooks, p, atom, kname, phi, neg, kids, al, K, state):
         return None if hasn else 'false is a member'
     if kname == 'atom':
         lab = None
+        key = None
         for (c, pol) in p.pc:
             if isinstance(c, App) and c.op == 'in' and \
                     isinstance(c.args[1], App) and \
                     c.args[1].op == 'labels':
                 lab = pol
+                key = c.args[0]
+        if lab is not None:
+            # what is looked up in the label set: the atom itself (found
+            # through its hash / ==) or its name -- a label is a name
+            name = phi.args[0] if isinstance(phi, New) and phi.args else None
+            okkey = hooks.feq(key, phi) is True or key == name or \
+                key == App('attr', phi, Const('name'))
+            if not okkey:
+                printed = isinstance(key, App) and key.op in ('str', 'fmt',
+                                                              'repr') and \
+                    any(x == phi or x == name for x in walk(key))
+                if printed:
+                    bad = _atom_print_is_name(hooks.prog, phi)
+                    if bad:
+                        return ('the labels of the state are searched for '
+                                'the *printed form* of the atomic '
+                                'proposition (%s), and %s: an atom whose '
+                                'printed form is not its name is never '
+                                'found' % (repr(key)[:60], bad))
+                else:
+                    raise Inconclusive('R-LTL-3', 'the labels are searched '
+                                       'for %r' % (key,), '')
         if lab is None:
             return 'membership of an atomic proposition is not decided by ' \
                    'the labels of the state'
